@@ -684,6 +684,16 @@ func (in *interp) harnessAPI(fr *frame, name string, args []value) (value, bool)
 			out[b] = r
 		}
 		return out, true
+	case "vStubCalls":
+		// number of calls so far on this path of by-name stubbed functions whose name contains the argument
+		sub := goString(fr, args[0])
+		n := 0
+		for k, c := range in.stubCalls {
+			if strings.Contains(k, sub) {
+				n += c
+			}
+		}
+		return ts.BVi(int64(n), 64), true
 	case "vEvent":
 		in.event("harness", goString(fr, args[0]))
 		return nil, true
@@ -890,6 +900,7 @@ func (in *interp) runStub(fr *frame, fi *fnInfo, args []value) value {
 	res := fi.fn.Signature.Results()
 	kind := fi.stub
 	in.stubsUsed[fi.name+" => "+kind]++
+	in.stubCalls[fi.name]++
 	mk := func(f func(t types.Type, i int) value) value {
 		switch res.Len() {
 		case 0:
@@ -924,6 +935,16 @@ func (in *interp) runStub(fr *frame, fi *fnInfo, args []value) value {
 			return mk(func(t types.Type, i int) value { return in.freshOfType(t, "uf."+fi.name, n) })
 		})
 		return copyDeep(r)
+	case "errif-prefix":
+		// func(path string, ...) error : fails iff path starts with the given prefix
+		path, ok := args[0].(string)
+		if !ok {
+			in.unsupported("errif-prefix: path must be concrete")
+		}
+		if strings.HasPrefix(path, strings.Join(parts[1:], ":")) {
+			return in.makeError("stubbed write failure for " + path)
+		}
+		return iface{}
 	case "ufwrite":
 		// f(o interface{}, w io.Writer, n *int, err *error): write an injective UF of o to w
 		n := 8
